@@ -1,10 +1,10 @@
 (* Proofs/C17Total.v — "out-of-range results are #NUM!, never an exception":
    which results DATE / EDATE / EOMONTH / YEAR / MONTH / DAY / WEEKDAY can have on
    integer arguments, on the generated code (Gen/date_time.v) under the decorator
-   wrappers (Model/DateFuncs.v).  The two ways the generated code does raise
-   (TypeError from is_leap_year when February of a year <= 0 is reached;
-   running out of the recursion budget) are characterised here and witnessed in
-   Refuted/C17_date_exceptions.v. *)
+   wrappers (Model/DateFuncs.v).  Since repair 7da3fd9 (dates normalised to a year
+   before 1 are #NUM!) the only way the generated code raises on integers is
+   running out of the recursion budget of normalize_year (one call per month
+   carried): witnessed in Refuted/C17_date_exceptions.v. *)
 From Coq Require Import ZArith QArith Qround List Bool Lia.
 From PV Require Import Lib.Py Lib.PyDate Proofs.PyTac Proofs.NumLemmas Proofs.C17Cal Proofs.C17Base
   Proofs.C17 Proofs.C17Carry Proofs.C17Months Model.Wrap Model.DateFuncs.
@@ -25,29 +25,29 @@ Lemma nyear_next y m : 1 <= m <= 12 -> y <= nyear y (m + 1).
 Proof. intros H. unfold nyear. Z.div_mod_to_equations. lia. Qed.
 
 (* [S f] calls suffice for 28 f + 28 days forward and 28 (f - 2) + 27 days backward
-   (a borrow can overshoot by one month: the finding C17-day-borrow); the
-   normalised year must stay positive: every call can lower it by one *)
-Lemma normalize_total f : forall y m d, Z.of_nat f + 1 < nyear y m ->
+   (a borrow can overshoot by one month: the finding C17-day-borrow), for EVERY
+   integer year and month: before year 1 the triple is returned at once *)
+Lemma normalize_total f : forall y m d,
   (1 <= d <= 28 * Z.of_nat f + 28) \/ (d <= 0 /\ 2 <= Z.of_nat f /\ - d <= 28 * (Z.of_nat f - 2) + 27) ->
   exists y' m' d', date_time.f_normalize_year (S f) (VInt y) (VInt m) (VInt d)
                    = Ok (VTuple [VInt y'; VInt m'; VInt d']).
 Proof.
-  induction f as [|f IH]; intros y m d Hy Hd; rewrite normalize_month;
+  induction f as [|f IH]; intros y m d Hd; rewrite normalize_month;
     pose proof (nmonth_range m) as R; pose proof (xdim_bounds (nyear y m) (nmonth m) R) as B;
+    (destruct (Z_lt_dec (nyear y m) 1) as [L|G];
+     [rewrite normalize_before_year1 by assumption; eauto|]);
     rewrite (normalize_step _ _ _ _ (xdim (nyear y m) (nmonth m))) by (try lia; apply max_days_val; lia).
   - replace (d <=? 0) with false by (symmetry; apply Z.leb_gt; cbn in Hd; lia).
     replace (xdim (nyear y m) (nmonth m) <? d) with false by (symmetry; apply Z.ltb_ge; cbn in Hd; lia).
     eauto.
   - rewrite Nat2Z.inj_succ in *.
     destruct (d <=? 0) eqn:E0; [apply Z.leb_le in E0 | apply Z.leb_gt in E0].
-    + pose proof (nyear_prev (nyear y m) (nmonth m) R).
-      destruct (IH (nyear y m) (nmonth m - 1) (d + xdim (nyear y m) (nmonth m)) ltac:(lia) ltac:(lia))
+    + destruct (IH (nyear y m) (nmonth m - 1) (d + xdim (nyear y m) (nmonth m)) ltac:(lia))
         as (y' & m' & d' & Q).
       rewrite Q, retup_ok. eauto.
     + destruct (xdim (nyear y m) (nmonth m) <? d) eqn:E1;
         [apply Z.ltb_lt in E1 | eauto].
-      pose proof (nyear_next (nyear y m) (nmonth m) R).
-      destruct (IH (nyear y m) (nmonth m + 1) (d - xdim (nyear y m) (nmonth m)) ltac:(lia) ltac:(lia))
+      destruct (IH (nyear y m) (nmonth m + 1) (d - xdim (nyear y m) (nmonth m)) ltac:(lia))
         as (y' & m' & d' & Q).
       rewrite Q, retup_ok. eauto.
 Qed.
@@ -74,52 +74,35 @@ Proof.
   intros H. unfold yadj. destruct (y <? 1900) eqn:E; [apply Z.ltb_lt in E|apply Z.ltb_ge in E]; lia.
 Qed.
 
-(* every year, every month from -11000 on, every day within +-25000: a value *)
-Lemma date_total y m d : -11000 <= m -> -25000 <= d <= 25000 ->
+(* EVERY integer year and month, every day within +-25000 (the recursion budget
+   of normalize_year: one nested call per month carried, 900 calls): a value *)
+Lemma date_total y m d : -25000 <= d <= 25000 ->
   exists v, date_time.f_date (VInt y) (VInt m) (VInt d) = Ok v /\ date_value v.
 Proof.
-  intros Hm Hd. destruct (Z_le_dec 0 y) as [H0|H0]; [destruct (Z_le_dec y 9999) as [H9|H9]|].
-  - pose proof (yadj_range y ltac:(lia)) as Ya.
-    assert (Hy : Z.of_nat 899 + 1 < nyear (yadj y) m).
-    { unfold nyear. change (Z.of_nat 899) with 899. Z.div_mod_to_equations. lia. }
-    destruct (normalize_total 899 (yadj y) m d Hy) as (y' & m' & d' & Q).
+  intros Hd. destruct (Z_le_dec 0 y) as [H0|H0]; [destruct (Z_le_dec y 9999) as [H9|H9]|].
+  - destruct (normalize_total 899 (yadj y) m d) as (y' & m' & d' & Q).
     { change (Z.of_nat 899) with 899. lia. }
     rewrite (date_norm y m d y' m' d' ltac:(lia) Q). eexists. split; [reflexivity|apply date_tail_value].
   - rewrite date_year_range by lia. eexists. split; [reflexivity|left; reflexivity].
   - rewrite date_year_range by lia. eexists. split; [reflexivity|left; reflexivity].
 Qed.
 
-(* for days 1..28 and ALL integer years and months the result is decided exactly:
-   TypeError iff February of a (normalised) year <= 0, else a value *)
-Lemma date_type_error y m d : 0 <= y <= 9999 -> nmonth m = 2 -> nyear (yadj y) m <= 0 ->
-  date_time.f_date (VInt y) (VInt m) (VInt d) = Raise TypeError.
-Proof.
-  intros Hy H2 H0. apply date_norm_raise; [assumption|]. unfold py_recursion_fuel.
-  rewrite normalize_month. apply normalize_step_raise; [rewrite H2; lia|].
-  rewrite H2. apply max_days_raise. assumption.
-Qed.
-
+(* for days 1..28 there is no bound at all: ALL integer years and months give a value
+   (before repair 7da3fd9: TypeError when February of a year <= 0 was reached) *)
 Lemma date_small_day y m d : 1 <= d <= 28 ->
-  if (0 <=? y) && (y <=? 9999) && (nmonth m =? 2) && (nyear (yadj y) m <=? 0)
-  then date_time.f_date (VInt y) (VInt m) (VInt d) = Raise TypeError
-  else exists v, date_time.f_date (VInt y) (VInt m) (VInt d) = Ok v /\ date_value v.
+  exists v, date_time.f_date (VInt y) (VInt m) (VInt d) = Ok v /\ date_value v.
+Proof. intros Hd. apply date_total. lia. Qed.
+
+(* and the value is #NUM! whenever the normalised year is before 1, for EVERY day *)
+Lemma date_before_year1 y m d : nyear (yadj y) m < 1 ->
+  date_time.f_date (VInt y) (VInt m) (VInt d) = Ok excelutil.c_NUM_ERROR.
 Proof.
-  intros Hd.
-  destruct (0 <=? y) eqn:E0; [apply Z.leb_le in E0|apply Z.leb_gt in E0]; cbn [andb];
-    [|rewrite date_year_range by lia; eexists; split; [reflexivity|left; reflexivity]].
-  destruct (y <=? 9999) eqn:E9; [apply Z.leb_le in E9|apply Z.leb_gt in E9]; cbn [andb];
-    [|rewrite date_year_range by lia; eexists; split; [reflexivity|left; reflexivity]].
-  destruct (nmonth m =? 2) eqn:E2; [apply Z.eqb_eq in E2|apply Z.eqb_neq in E2]; cbn [andb].
-  - destruct (nyear (yadj y) m <=? 0) eqn:Ey; [apply Z.leb_le in Ey|apply Z.leb_gt in Ey].
-    + apply date_type_error; [lia|assumption|assumption].
-    + pose proof (xdim_bounds (nyear (yadj y) m) (nmonth m) (nmonth_range m)).
-      rewrite (date_norm y m d _ _ _ ltac:(lia)
-                 (normalize_fits 899 (yadj y) m d ltac:(lia) ltac:(lia))).
-      eexists. split; [reflexivity|apply date_tail_value].
-  - pose proof (xdim_bounds (nyear (yadj y) m) (nmonth m) (nmonth_range m)).
-    rewrite (date_norm y m d _ _ _ ltac:(lia)
-               (normalize_fits 899 (yadj y) m d ltac:(lia) ltac:(lia))).
-    eexists. split; [reflexivity|apply date_tail_value].
+  intros Hy. destruct (Z_le_dec 0 y) as [H0|H0]; [destruct (Z_le_dec y 9999) as [H9|H9]|];
+    try (apply date_year_range; lia).
+  rewrite (date_norm y m d _ _ _ ltac:(lia) (normalize_fits 899 (yadj y) m d (or_introl Hy))).
+  unfold date_tail.
+  replace (1 <=? nyear (yadj y) m) with false by (symmetry; apply Z.leb_gt; lia).
+  replace (nyear (yadj y) m =? 1900) with false by (symmetry; apply Z.eqb_neq; lia). reflexivity.
 Qed.
 
 (* --------------------------------------------- the parts of every serial day *)
@@ -210,33 +193,32 @@ Proof.
   - replace (1 =? 29) with false by reflexivity. rewrite !andb_false_r. discriminate.
 Qed.
 
-(* every serial number (any integer) and every shift from -10000 months on:
+(* EVERY integer serial number and EVERY integer shift:
    EOMONTH is #NUM! or an integer, EDATE is #NUM!, a serial day or the float 60.0
    (EDATE(1900-01-29, 1) is the phantom leap day, which DATE spells 60.0) *)
-Lemma months_total n k : -10000 <= k ->
+Lemma months_total n k :
   (exists v, date_time.f_eomonth (VInt n) (VInt k) = Ok v /\ num_or_int v)
   /\ (exists v, date_time.f_edate (VInt n) (VInt k) = Ok v /\ date_value v).
 Proof.
-  intros Hk. destruct (Z_le_dec 0 n) as [H0|H0]; [destruct (Z_le_dec n 2958465) as [H9|H9]|];
+  destruct (Z_le_dec 0 n) as [H0|H0]; [destruct (Z_le_dec n 2958465) as [H9|H9]|];
     try (destruct (months_out_of_range n k ltac:(lia)) as [A B]; rewrite A, B;
          split; eexists; (split; [reflexivity|left; reflexivity])).
   destruct (from_int_total n ltac:(lia)) as (y & m & d & F & Hy & Hm & Hd). split.
   - rewrite (months_inc_eo n k y m d ltac:(lia) F).
     assert (Ya : yadj y = y) by (unfold yadj; replace (y <? 1900) with false by (symmetry; apply Z.ltb_ge; lia); reflexivity).
-    assert (Y3 : 0 < nyear y (m + k + 1)) by (unfold nyear; Z.div_mod_to_equations; lia).
     pose proof (xdim_bounds (nyear y (m + k + 1)) (nmonth (m + k + 1)) (nmonth_range (m + k + 1))) as B.
-    pose proof (normalize_fits 899 y (m + k + 1) 1 ltac:(intros _; exact Y3) ltac:(lia)) as N.
+    pose proof (normalize_fits 899 y (m + k + 1) 1 ltac:(right; lia)) as N.
     rewrite <- Ya in N at 1.
     rewrite (date_norm y (m + k + 1) 1 _ _ _ ltac:(lia) N).
     destruct (date_tail_first (nyear y (m + k + 1)) (nmonth (m + k + 1))) as [E|(z & E)];
       rewrite E; py_run; eexists; (split; [reflexivity|]).
     + left. reflexivity.
     + right. eexists. reflexivity.
-  - assert (Y2 : 0 < nyear y (m + k)) by (unfold nyear; Z.div_mod_to_equations; lia).
-    rewrite (months_inc_ed n k y m d ltac:(lia) F ltac:(intros _; exact Y2)).
+  - rewrite (months_inc_ed n k y m d ltac:(lia) F).
+    destruct (nyear y (m + k) <? 1); [eexists; split; [reflexivity|left; reflexivity]|].
     pose proof (xdim_bounds (nyear y (m + k)) (nmonth (m + k)) (nmonth_range (m + k))) as B.
     cbv zeta.
-    apply date_total; [lia|]. destruct (xdim (nyear y (m + k)) (nmonth (m + k)) <? d); lia.
+    apply date_total. destruct (xdim (nyear y (m + k)) (nmonth (m + k)) <? d); lia.
 Qed.
 
 Example months_total_ex :
@@ -244,14 +226,17 @@ Example months_total_ex :
   /\ date_time.f_eomonth (VInt 45000) (VInt (-10000)) = Ok excelutil.c_NUM_ERROR
   /\ date_time.f_edate (VInt 45000) (VInt 100000) = Ok excelutil.c_NUM_ERROR
   /\ date_time.f_date (VInt 2000) (VInt (-11000)) (VInt (-25000)) = Ok excelutil.c_NUM_ERROR
+  /\ date_time.f_date (VInt 1900) (VInt (-22810)) (VInt 1) = Ok excelutil.c_NUM_ERROR
+  /\ date_time.f_eomonth (VInt 100) (VInt (-22815)) = Ok excelutil.c_NUM_ERROR
+  /\ date_time.f_edate (VInt 100) (VInt (-22814)) = Ok excelutil.c_NUM_ERROR
   /\ date_time.f_date (VInt 1950) (VInt 600) (VInt (-25000)) = Ok (VInt 11495).
 Proof. repeat split; vm_compute; reflexivity. Qed.
 
 (* the same through the decorator wrappers *)
 Lemma wrapped_total :
-  (forall y m d, -11000 <= m -> -25000 <= d <= 25000 ->
+  (forall y m d, -25000 <= d <= 25000 ->
      exists v, X_date [VInt y; VInt m; VInt d] = Ok v /\ date_value v)
-  /\ (forall n k, -10000 <= k ->
+  /\ (forall n k,
         (exists v, X_eomonth [VInt n; VInt k] = Ok v /\ num_or_int v)
         /\ (exists v, X_edate [VInt n; VInt k] = Ok v /\ date_value v)).
 Proof.
@@ -294,31 +279,31 @@ Proof.
   rewrite date_tail_num by lia. reflexivity.
 Qed.
 
-(* EDATE / EOMONTH whose target month lies before 1899 or after 9999 are #NUM!
-   (y3, m3: the month after the target, whose first day EOMONTH computes) *)
+(* EDATE / EOMONTH whose target month lies before 1899 or after 9999 are #NUM!,
+   for EVERY integer shift (y3: the year of the month after the target, whose
+   first day EOMONTH computes) *)
 Lemma months_out_of_calendar n k y m d : 60 < n <= 2958465 -> ord2ymd (693594 + n) = (y, m, d) ->
-  (let y2 := nyear y (m + k) in let m2 := nmonth (m + k) in
-   (m2 = 2 -> 0 < y2) -> y2 < 1899 \/ 10000 <= y2 ->
+  (let y2 := nyear y (m + k) in y2 < 1899 \/ 10000 <= y2 ->
    date_time.f_edate (VInt n) (VInt k) = Ok excelutil.c_NUM_ERROR)
-  /\ (let y3 := nyear y (m + k + 1) in let m3 := nmonth (m + k + 1) in
-      (m3 = 2 -> 0 < y3) -> y3 < 1899 \/ 10000 <= y3 ->
+  /\ (let y3 := nyear y (m + k + 1) in y3 < 1899 \/ 10000 <= y3 ->
       date_time.f_eomonth (VInt n) (VInt k) = Ok excelutil.c_NUM_ERROR).
 Proof.
   intros Hn E. destruct (from_int_spec n y m d Hn E) as (F & Hy & Hm & Hd & Ho & HL).
   assert (Ya : yadj y = y) by (unfold yadj; replace (y <? 1900) with false by (symmetry; apply Z.ltb_ge; lia); reflexivity).
   split.
-  - intros y2 m2 H2 Hy2.
-    rewrite (months_inc_ed n k y m d ltac:(lia) F H2). fold y2 m2. cbv zeta.
+  - intros y2 Hy2. set (m2 := nmonth (m + k)).
+    rewrite (months_inc_ed n k y m d ltac:(lia) F). fold y2 m2.
+    destruct (y2 <? 1) eqn:E1; [reflexivity|]. apply Z.ltb_ge in E1. cbv zeta.
     pose proof (xdim_bounds y2 m2 (nmonth_range (m + k))) as B.
     set (dd := if xdim y2 m2 <? d then xdim y2 m2 else d).
     assert (Hdd : 1 <= dd <= xdim y2 m2).
     { unfold dd. destruct (xdim y2 m2 <? d) eqn:C; [apply Z.ltb_lt in C|apply Z.ltb_ge in C]; lia. }
-    pose proof (normalize_fits 899 y (m + k) dd H2 Hdd) as N. rewrite <- Ya in N at 1.
+    pose proof (normalize_fits 899 y (m + k) dd (or_intror Hdd)) as N. rewrite <- Ya in N at 1.
     rewrite (date_norm y (m + k) dd _ _ _ ltac:(lia) N). fold y2. rewrite date_tail_num by lia. reflexivity.
-  - intros y3 m3 H3 Hy3.
+  - intros y3 Hy3. set (m3 := nmonth (m + k + 1)).
     rewrite (months_inc_eo n k y m d ltac:(lia) F).
     pose proof (xdim_bounds y3 m3 (nmonth_range (m + k + 1))) as B.
-    pose proof (normalize_fits 899 y (m + k + 1) 1 H3 ltac:(fold y3 m3; lia)) as N. rewrite <- Ya in N at 1.
+    pose proof (normalize_fits 899 y (m + k + 1) 1 ltac:(right; fold y3 m3; lia)) as N. rewrite <- Ya in N at 1.
     rewrite (date_norm y (m + k + 1) 1 _ _ _ ltac:(lia) N). fold y3. rewrite date_tail_num by lia.
     reflexivity.
 Qed.
@@ -327,5 +312,7 @@ Example out_of_range_ex :
   date_time.f_date (VInt 9999) (VInt 12) (VInt 32) = Ok excelutil.c_NUM_ERROR
   /\ ymd2ord 9999 12 1 - 693594 + 32 - 1 = 2958466
   /\ date_time.f_edate (VInt 2958465) (VInt 1) = Ok excelutil.c_NUM_ERROR
-  /\ date_time.f_eomonth (VInt 100) (VInt (-30)) = Ok excelutil.c_NUM_ERROR.
+  /\ date_time.f_eomonth (VInt 100) (VInt (-30)) = Ok excelutil.c_NUM_ERROR
+  /\ date_time.f_edate (VInt 100) (VInt (-22814)) = Ok excelutil.c_NUM_ERROR
+  /\ (nyear 1900 (4 - 22814), nmonth (4 - 22814)) = (-1, 2).
 Proof. repeat split; vm_compute; reflexivity. Qed.
